@@ -320,7 +320,10 @@ func (queue *PacketQueue) WriteBytes(bs []byte) error {
 		if freeBytes == 0 {
 			curPacket = NewPacket(queue.packetSize())
 			queue.queue = append(queue.queue, curPacket)
-			queue.indexPacket++
+			// The new packet is the last one of the queue - which is
+			// not the one behind the current packet if packets were
+			// enqueued meanwhile.
+			queue.indexPacket = len(queue.queue) - 1
 			queue.indexData = 0
 			freeBytes = int(curPacket.Header.Length) - PacketHeaderSize
 		}
